@@ -92,6 +92,20 @@ theorem keywordFree_facts {n : String} (h : KeywordFree n) :
   · unfold endsW; rw [kwB_toList]; exact not_isSuffixOf_of_not_hasSubL h1
   · unfold hasSub; rw [kwB_toList]; exact h1
 
+/-- a DMA slice in the sense of the FLEX dialect (`is.name; DmaI`, `is.name; DmaO`: unanchored): the blank-led
+keyword `i ∈ {0 = DmaI, 3 = DmaO}` occurs somewhere in the name and no keyword of another phase occurs -/
+def MidnameDma (n : String) (i : Nat) : Prop :=
+  (i = 0 ∨ i = 3) ∧ hasSub n (kwB i) = true ∧ ∀ j, j < 4 → j ≠ i → hasSub n (kwNB j) = false
+
+theorem midnameDma_facts {n : String} {i : Nat} (h : MidnameDma n i) :
+    hasSub n (kwB i) = true ∧ ∀ j, j < 4 → j ≠ i → hasSub n (kwB j) = false ∧ endsW n (kwNB j) = false := by
+  obtain ⟨_, hin, hno⟩ := h
+  refine ⟨hin, ?_⟩
+  intro j hj hji
+  have h0 : hasSubL (kwNB j).toList n.toList = false := hno j hj hji
+  refine ⟨?_, not_isSuffixOf_of_not_hasSubL h0⟩
+  unfold hasSub; rw [kwB_toList]; exact not_hasSubL_cons h0
+
 /-- `_convert_cycle_timestamps` only ever anchors TS2..TS5 -/
 theorem cvtRefIdx_mem (n : String) : cvtRefIdx n = 1 ∨ cvtRefIdx n = 2 ∨ cvtRefIdx n = 3 ∨ cvtRefIdx n = 4 := by
   unfold cvtRefIdx
